@@ -632,6 +632,71 @@ fn check_lin_scaled(ctx: &Ctx, l: &Lin, o: i64, alpha: &[i64], scale: i64, max: 
   }
 }
 
+/// hour-level values on Jie days: a value stepped by a then b seconds must be *the same value* as the one built afresh
+/// at the target instant (time and all four pillars), also when a step stays inside the day and crosses the Jie instant
+fn check_hours_on_jie_days(ctx: &Ctx, civ: &Civil) {
+  use crate::refmodel::terms::read_term;
+  let alpha = sym(&[1, 3600, 7200, 25200, 86400]);
+  let mut insts: Vec<i64> = Vec::new();
+  for y in [1582isize, 2023, 2024, 9000] {
+    for i in (1..24).step_by(2) {
+      let t = read_term(civ, y, i);
+      if t.inst == i64::MIN {
+        continue;
+      }
+      let day0 = t.inst.div_euclid(86400) * 86400;
+      for x in [day0 + 10, t.inst - 3600, t.inst - 1, t.inst, t.inst + 1, day0 + 82799] {
+        insts.push(x);
+      }
+    }
+  }
+  let max = civ.len() as i64 * 86400 - 86401;
+  let done = par_chunks(ctx, 0, insts.len(), 2, |x, y, loc| {
+    for k in x..y {
+      let o = insts[k];
+      loc.states += 1;
+      for &a in &alpha {
+        for &b in &alpha {
+          let (mid, t) = (o + a, o + a + b);
+          if mid < 86400 * 40 || t < 86400 * 40 || mid > max || t > max {
+            continue;
+          }
+          loc.transitions += 2;
+          let r = guard(|| {
+            let fresh = mk_time(civ, t);
+            let sh = mk_time(civ, o).get_sixty_cycle_hour().next(a as isize).next(b as isize);
+            let lh = mk_time(civ, o).get_lunar_hour();
+            let _ = lh.get_sixty_cycle_hour();
+            // LunarHour steps by double-hours: only steps that are multiples of 7200 s
+            let lstep = if a % 7200 == 0 && b % 7200 == 0 { Some(lh.next((a / 7200) as isize).next((b / 7200) as isize)) } else { None };
+            (
+              format!("{} @ {}", sh, sh.get_solar_time()),
+              format!("{} @ {}", fresh.get_sixty_cycle_hour(), fresh),
+              lstep.map(|l| format!("{} {} @ {}", l.get_eight_char().get_name(), l.get_sixty_cycle_hour(), l.get_solar_time())),
+              format!("{} {} @ {}", fresh.get_lunar_hour().get_eight_char().get_name(), fresh.get_sixty_cycle_hour(), fresh),
+            )
+          });
+          let key = format!("hours {} a={:+} b={:+}", fmt_inst(civ, o), a, b);
+          match r {
+            Ok((got, want, lgot, lwant)) => {
+              if got != want {
+                ctx.violation("linear_step", format!("SixtyCycleHour {}", key), format!("SixtyCycleHour: next({}).next({}) = {}; the value built at the target instant is {}", a, b, got, want), vec!["jiehours".into()]);
+              }
+              if let Some(lg) = lgot {
+                if lg != lwant {
+                  ctx.violation("linear_step", format!("LunarHour {}", key), format!("LunarHour: next({}).next({}) = {}; the value built at the target instant is {}", a / 7200, b / 7200, lg, lwant), vec!["jiehours".into()]);
+                }
+              }
+            }
+            Err(m) => ctx.violation("linear_step", key, format!("panics: {}", m), vec!["jiehours".into()]),
+          }
+        }
+      }
+    }
+  });
+  ctx.subspace(&format!("hour-level values on the 48 Jie days of 1582, 2023, 2024, 9000: {} start instants (incl. the Jie instant +-1 s) x step pairs from {:?}: SixtyCycleHour / LunarHour stepped = built afresh at the target (time and all pillars)", insts.len(), alpha), done, insts.len() as u64);
+}
+
 /// weeks: w.next(a).next(b) starts 7 (a + b) days after w (group action on the first day); every week of the listed
 /// years (leap months included) x 7 week starts x step pairs
 fn check_weeks(ctx: &Ctx, civ: &Civil, lt: &crate::refmodel::lunar::LunTable) {
@@ -756,6 +821,7 @@ pub fn run(ctx: &Ctx) {
     ctx.subspace(&format!("linear unit {}: {} values x step pairs from {:?}", l.unit, st.len(), alpha), done, st.len() as u64);
   }
   check_weeks(ctx, &civ, &lt);
+  check_hours_on_jie_days(ctx, &civ);
   if ctx.primary() {
     for c in cs.iter().take(3) {
       let r = guard(|| (c.step2)(1, -(c.names.len() as isize) - 1, 1000003));
@@ -784,6 +850,7 @@ pub fn replay(ctx: &Ctx, args: &[String]) {
       println!("replay C11 cyclic type {} (size {})", c.ty, c.names.len());
       check_cycle(ctx, c, &pool, &mut l);
     }
+    "jiehours" => check_hours_on_jie_days(ctx, &civ),
     "weeks" => {
       let lt = crate::refmodel::lunar::LunTable::build(ctx, 0, 9999);
       check_weeks(ctx, &civ, &lt);
